@@ -43,6 +43,11 @@ theorem rr_cursor_atomic_add : rrCursorAtomicAdds = 1 ∧ rrCursorOtherWrites = 
     binds the keys to the channel's *current* connection, is atomic with respect to the swap -/
 theorem bind_reads_subconn_under_lock : bindReadsSubConnUnderLock = true := by decide
 
+/-- C04 / C07 / C20: `UpdateClientConnState`, `UpdateSubConnState` and `refresh` hold the balancer lock
+    from their first statement to their return: each is one atomic step of the pool model (no other
+    callback, completion or pick of the balancer's tables can run in between) -/
+theorem balancer_callbacks_hold_lock : balancerCallbacksHoldLock = true := by decide
+
 theorem balancer_name : balancerName = "grpc_gcp" := by decide
 
 end GcpVerif.Ties
